@@ -496,6 +496,121 @@ def h_split_translation():
         prove(f"split_tr:{nm}_whole", ex(ww) == symx.s_floor(ex(ww)))
 
 
+# ---- FP-exact obligations (IEEE-754, RNE) -----------------------------------------------------------
+def setup_fp():
+    shims.install_core()
+    if symx.concrete_mode():
+        return
+    import odc.geo.math as m
+
+    from .. import fp
+
+    fp.install(m)
+
+
+def _fp_domain(x, bits, lo_exp, hi_exp):
+    """restrict |x| to the exponent slice [2^lo_exp, 2^hi_exp) (None = unrestricted on that side)"""
+    import z3
+
+    from .. import fp
+
+    if symx.concrete_mode():
+        return
+    a = z3.fpAbs(x.t)
+    srt = fp.SORTS[bits]
+    if lo_exp is not None:
+        assume(symx.SymBool(z3.fpGEQ(a, z3.FPVal(2.0**lo_exp, srt))))
+    if hi_exp is not None:
+        assume(symx.SymBool(z3.fpLT(a, z3.FPVal(2.0**hi_exp, srt))))
+
+
+def h_fp_split_float(bits, lo_exp, hi_exp):
+    import z3
+
+    from .. import fp
+
+    x = fp.FP("x", bits)
+    m = gm()
+    if symx.concrete_mode():
+        import math
+
+        if bits != 64:
+            return  # narrower formats are decided by the solver only (no native type to replay on)
+        w, p = m.split_float(x)
+        if not math.isfinite(x):
+            prove("nonfinite_passthrough", (w == x or (w != w and x != x)) and p == 0)
+            return
+        prove("sum_is_exact", w + p == x)
+        prove("fraction_in_range", -0.5 <= p <= 0.5)
+        prove("whole_is_integral", w == math.floor(w))
+        return
+    fin = fp.fp_isfinite(x)
+    if not bool(fin):
+        w, p = m.split_float(x)
+        prove("nonfinite_passthrough", p == 0)
+        return
+    _fp_domain(x, bits, lo_exp, hi_exp)
+    w, p = m.split_float(x)
+    prove("sum_is_exact", (w + p) == x)
+    prove("fraction_in_range", And(p >= -0.5, p <= 0.5))
+    prove("whole_is_integral", fp.is_integral(w))
+    prove("whole_is_finite", fp.fp_isfinite(w))
+
+
+def h_fp_almost_int(bits, lo_exp, hi_exp, tol):
+    """maybe_int and is_almost_int agree with each other in exact IEEE arithmetic"""
+    from .. import fp
+
+    x = fp.FP("x", bits)
+    m = gm()
+    tolf = float(F(tol))
+    if symx.concrete_mode():
+        import math
+
+        if bits != 64 or not math.isfinite(x):
+            return
+        r = m.maybe_int(x, tolf)
+        a = m.is_almost_int(x, tolf)
+        prove("agree", isinstance(r, int) == a)
+        if isinstance(r, int):
+            prove("int_value_is_round", r == round(x) or abs(r - x) < tolf)
+        return
+    assume(fp.fp_isfinite(x))
+    _fp_domain(x, bits, lo_exp, hi_exp)
+    r = m.maybe_int(x, tolf)
+    a = m.is_almost_int(x, tolf)
+    got_int = isinstance(r, fp.FPInt)
+    prove("agree", a if got_int else Not(a))
+    if got_int:
+        prove("int_comes_from_an_integral_float", fp.is_integral(r.src))
+        prove("int_within_tol", abs(r.src - x) < tolf)
+    else:
+        prove("passthrough_is_identity", r is x)
+
+
+def _fp_params(tier, rng):
+    out = [dict(bits=16, lo_exp=None, hi_exp=None)]
+    # binary64 by exponent slices [2^k, 2^(k+1)); below 1/2 and above 2^52 in one piece each
+    out += [dict(bits=64, lo_exp=None, hi_exp=-1), dict(bits=64, lo_exp=52, hi_exp=None)]
+    ks = [0, 20] if tier == "quick" else list(range(-1, 52))
+    if tier == "quick":
+        ks.append(rng.randint(-1, 51))
+    for k in ks:
+        out.append(dict(bits=64, lo_exp=k, hi_exp=k + 1))
+    if tier == "thorough":
+        out.append(dict(bits=32, lo_exp=None, hi_exp=None))
+    return out
+
+
+def _fp_ai_params(tier, rng):
+    out = [dict(bits=16, lo_exp=None, hi_exp=None, tol="1/64")]
+    out += [dict(bits=64, lo_exp=None, hi_exp=-1, tol=str(F(1e-6))), dict(bits=64, lo_exp=52, hi_exp=None, tol=str(F(1e-6)))]
+    ks = [0, 10] if tier == "quick" else list(range(-1, 52, 3))
+    for k in ks:
+        out.append(dict(bits=64, lo_exp=k, hi_exp=k + 1, tol=str(F(1e-6))))
+    return out
+
+
 RES_Q = ["1", "-1", "10", "-10", "1/3", "-100/3", "1/4"]
 RES_T = RES_Q + ["30", "-30", "1/3600", "-1/3600", "7/3", "-1/4", "100/3", "1000"]
 
@@ -564,5 +679,13 @@ OBLIGATIONS = [
        descr="resolution_from_affine on rotated grids (rational rotations): |res| recovered, orientation sign product kept",
        functions=("odc.geo.math.resolution_from_affine", "odc.geo.math.decompose_rws"), bounds="rotation from grid, rx, ry symbolic non-zero",
        stubs=("Mat2",), setup=setup, timeout_ms=60000, fresh_only=True),
+    Ob("N1_fp_split_float", h_fp_split_float, _fp_params,
+       descr="split_float in exact IEEE-754 arithmetic: whole + fraction == x (exactly), fraction in [-0.5, 0.5], whole integral and finite; non-finite input passes through",
+       functions=("odc.geo.math.split_float",), bounds="binary16 whole domain; binary64 by exponent slices [2^k,2^(k+1)) (quick: |x|<1/2, |x|>=2^52, k in {0,20,seeded}; thorough: every k in -1..51) ; thorough adds binary32 whole domain",
+       stubs=("fmod(x,1.0) encoded exactly as x - roundToIntegral(RTZ, x)",), setup=setup_fp, timeout_ms=600000, deadline_s=3000),
+    Ob("N2_fp_almost_int", h_fp_almost_int, _fp_ai_params,
+       descr="maybe_int and is_almost_int agree in exact IEEE-754 arithmetic; the int returned comes from an integral float within tol of x",
+       functions=("odc.geo.math.maybe_int", "odc.geo.math.is_almost_int", "odc.geo.math.split_float"), bounds="binary16 whole domain (tol 1/64); binary64 exponent slices (tol 1e-6)",
+       stubs=("fmod exact encoding",), setup=setup_fp, timeout_ms=600000, deadline_s=3000),
     Ob("N10_split_translation", h_split_translation, fixed(), descr="split_translation", functions=("odc.geo.math.split_translation",), setup=setup),
 ]
